@@ -237,10 +237,12 @@ func evalC10(r *runner, u *c10Unit, c C10Case) string {
 		}
 		if u.e.Accepts(ids) {
 			o := u.ps.NewSession().Parse(toks, -1, false)
-			if o.Panic != "" || o.Guard {
+			conflictFree := !hasFlag(c.Flags, "-a")
+			// (under -a a cyclic grammar may legitimately keep reducing for ever: only
+			// conflict-free grammars are held to termination here)
+			if o.Panic != "" || (o.Guard && conflictFree) {
 				return hd + fmt.Sprintf("sentence %v typed through TokMap.Type: Parse panicked or looped: %s", c.Toks, firstLines(o.Panic, 4))
 			}
-			conflictFree := !hasFlag(c.Flags, "-a")
 			if !o.ErrNil && conflictFree {
 				return hd + fmt.Sprintf("sentence %v with token types taken from TokMap.Type is rejected by the parser: its tables are not indexed by the token package's numbers (error token #%d, expected %q)", c.Toks, o.Err.ErrTok, o.Err.Expected)
 			}
